@@ -264,3 +264,128 @@ extern "C" void h_gev() {
     }
     vf_witness();
 }
+
+// ================================================================== ONE FRAME of evaluate() against the contract of its recursive call
+// evaluate(left, expr = item i, prev = p), called only with p == NoOp or p < op(i) (a caller descends only to a higher rank):
+//   consumes items i .. j where j is the first index >= i whose pending operator is <= p (the last item's NoOp always is),
+//   leaves expr on item j and left = TREE(i..j), the precedence-climbing tree of that stretch under rank(op) = QOperation code.
+// The frame under test runs the REAL body; its recursive call (Template.hpp:1425) is replaced by fn_eval_contract (ll2c self_stub),
+// which asserts the precondition and delivers exactly that postcondition.  Every K' <= K is a query, so by induction on the
+// number of items the contract holds for the real recursion, for lists of up to K items and every starting rank.
+static unsigned g_ops[K];
+static unsigned first_leq(unsigned from, unsigned p) { unsigned t = from; while (t + 1 < K && g_ops[t] > p) ++t; return t; }   // g_ops[K-1] == 0
+// shunting yard over items i..j (pending operator of j ignored); equal ranks pop: left associative
+static Enc ref_tree(unsigned i, unsigned j) {
+    Enc vs[K + 1]; unsigned os[K + 1]; unsigned nv = 0, no = 0;
+    for (unsigned t = i; t <= j; t++) {
+        vs[nv] = enc_leaf(t); ++nv;
+        unsigned op = (t == j) ? 0u : g_ops[t];
+        while (no > 0 && os[no - 1] >= op) { Enc r = vs[nv - 1]; Enc l = vs[nv - 2]; nv = nv - 2; no = no - 1; vs[nv] = enc_node(os[no], l, r); ++nv; }
+        os[no] = op; ++no;
+    }
+    return vs[0];
+}
+static bool g_pre_bad; static unsigned g_rec_calls;
+extern "C" bool fn_eval_contract(const TC *self, QE *left, const QE **expr, unsigned char prev) {
+    unsigned i = unsigned(*expr - g_first);
+    if (i >= K || prev == 0 || !(prev < g_ops[i])) g_pre_bad = true;       // pre: inside the list, descending to a higher rank
+    if (i >= K) i = K - 1;
+    unsigned j = first_leq(i, prev);
+    Enc t = ref_tree(i, j);
+    left->Value.Number.Natural = t.bits; left->Value.Offset = t.len; left->Type = ET::NaturalNumber;
+    for (unsigned u = i; u <= j; u++) { if (g_fetch_mask & (1u << u)) g_fetch_bad = true; g_fetch_mask = g_fetch_mask | (1u << u); }   // it fetches its items
+    *expr = g_first + j;
+    if (g_calls > g_fail_at) g_after_fail = true;
+    bool ok = (g_calls != g_fail_at);
+    g_calls = g_calls + 1; g_rec_calls = g_rec_calls + 1;
+    return ok;
+}
+extern "C" bool fn_tree_f(const TC *self, QE *l, QE *r, unsigned char op) {   // tree kernel that can be told to fail at one call
+    Enc a, b; a.bits = l->Value.Number.Natural; a.len = l->Value.Offset; b.bits = r->Value.Number.Natural; b.len = r->Value.Offset;
+    Enc n = enc_node(op, a, b);
+    l->Value.Number.Natural = n.bits; l->Value.Offset = n.len; l->Type = ET::NaturalNumber;
+    if (g_calls > g_fail_at) g_after_fail = true;
+    bool ok = (g_calls != g_fail_at);
+    g_calls = g_calls + 1;
+    return ok;
+}
+// the frame's own chain under the CORRECT rule; true when, right after a nested stretch, the next operator belongs to the caller
+// (0 < op <= p) - the situation in which the engine carries on instead of returning (finding C04-prec-return)
+static bool frame_hits_finding(unsigned p) {
+    unsigned t = 0; bool hit = false; unsigned guard = 0;
+    while (guard < K && g_ops[t] > p) {
+        if (g_ops[t] >= g_ops[t + 1]) t = t + 1;                          // g_ops[t] > p >= 0: t is not the last item
+        else { t = first_leq(t + 1, g_ops[t]); if (g_ops[t] != 0 && g_ops[t] <= p) { hit = true; break; } }
+        ++guard;
+    }
+    return hit;
+}
+extern "C" void h_frame() {
+    unsigned p = vf_u8(); vf_assume(p <= NOPS);
+    pick_list();
+    for (unsigned i = 0; i < K; i++) g_ops[i] = top_op[i];
+    vf_assume(p == 0 || p < g_ops[0]);                                    // pre
+    bool hit = frame_hits_finding(p);
+#ifdef KF_EXCL_C04_prec_return
+    vf_assume(!hit);
+#endif
+#ifdef KF_ONLY_C04_prec_return
+    vf_assume(hit);
+    for (unsigned i = 0; i < K; i++) vf_assume(g_ops[i] != 15);          // keep x % 0 (a different finding, a trap) out of the native replay
+#endif
+#ifdef WITH_FAILURE
+    g_fail_at = vf_u8();
+#else
+    g_fail_at = 0xFFFFu;
+#endif
+    QE items[K]; const QE *first = items;
+    build(items, [](unsigned id, u64 v) { Enc e = enc_leaf(id); Pay q; q.n = e.bits; q.aux = e.len; return q; });
+    TC tc{nullptr, 0};
+    const QE *expr = first; QE result;
+    g_calls = 0; g_rec_calls = 0; g_after_fail = false; g_pre_bad = false;
+    bool ok = tc.evaluate(result, expr, OP(p));
+    unsigned J = first_leq(0, p);
+    Enc want = ref_tree(0, J);
+    vf_assert(!g_pre_bad, 1);                                             // recursive calls respect the precondition
+#ifdef WITH_FAILURE
+    if (g_fail_at < g_calls) { vf_assert(!ok, 6); vf_assert(!g_after_fail, 7); }   // an undefined operation anywhere: no value, nothing evaluated after it
+    else {
+#endif
+    vf_assert(ok, 2);
+    vf_assert(expr == first + J, 3);                                      // stops on the first operator that belongs to the caller
+    vf_assert(result.Value.Number.Natural == want.bits && result.Value.Offset == want.len, 4);   // with exactly the climbing tree
+    vf_assert(!g_fetch_bad && g_fetch_mask == (1u << (J + 1)) - 1u, 5);   // every item of the stretch fetched exactly once, none beyond
+#ifdef WITH_FAILURE
+    }
+#endif
+    vf_witness();
+}
+
+// ------------------------------------------------------------------ rank table vs documented levels, as values (no engine code)
+// On every list where the documentation is unambiguous (see ambiguous()), grouping by the engine's rank table and grouping by the
+// six documented levels (left to right inside a level) give the same exact value / the same "no value".
+static DV yard(bool fine) {
+    DV vs[K + 1]; unsigned os[K + 1]; unsigned nv = 0, no = 0;
+    for (unsigned t = 0; t < K; t++) {
+        vs[nv].v = (i32)top_val[t]; vs[nv].ok = 1; ++nv;
+        unsigned op = top_op[t];
+        unsigned rk = (op == 0) ? 0u : (fine ? op : doc_level(op));
+        while (no > 0 && ((os[no - 1] == 0) ? 0u : (fine ? os[no - 1] : doc_level(os[no - 1]))) >= rk) {
+            DV r = vs[nv - 1]; DV l = vs[nv - 2]; nv = nv - 2; no = no - 1;
+            i32 out = 0; bool ok = arith(os[no], l.v, r.v, out);
+            vs[nv].v = out; vs[nv].ok = (l.ok != 0 && r.ok != 0 && ok) ? 1 : 0; ++nv;
+        }
+        os[no] = op; ++no;
+    }
+    return vs[0];
+}
+extern "C" void h_docfine() {
+    pick_list();
+    vf_assume(!ambiguous(top_op, K));
+    g_unsupported = false;
+    DV a = yard(true); DV b = yard(false);
+    vf_assume(!g_unsupported);
+    vf_assert((a.ok != 0) == (b.ok != 0), 1);
+    if (a.ok != 0) vf_assert(a.v == b.v, 2);
+    vf_witness();
+}
